@@ -133,6 +133,18 @@ func c05Exec(out *core.Out, st *Stream, exp []Ev, ends []int, cut, kind int, ex 
 	if resumes {
 		nc.EndErr = io.EOF
 	}
+	// the write side of the transport may be broken as well (pong and close echoes
+	// then fail); that must not change what the reader reports
+	writeBroken := r.Intn(4)
+	switch writeBroken {
+	case 1:
+		nc.WriteErr = io.ErrClosedPipe
+	case 2:
+		nc.WriteErr = &xport.TimeoutErr{S: "xport: write timeout"}
+	}
+	if nc.WriteErr != nil {
+		out.Count("executions_with_broken_write_side", 1)
+	}
 	c := ws.VerifNewConn(nc, ex.Server, ex.RB, 256, nil, nil, ex.Comp)
 	out.Count("faults_injected", 1)
 	if resumes {
@@ -151,7 +163,7 @@ func c05Exec(out *core.Out, st *Stream, exp []Ev, ends []int, cut, kind int, ex 
 		if resumes {
 			what += " (the transport went on delivering after the fault)"
 		}
-		out.Violate("C05:"+sig, what, map[string]interface{}{"exec": ex, "cut": cut, "fault": faultNames[kind], "transport_resumes_after_fault": resumes, "stream": st.Summary(), "bytes": core.Trunc(st.Bytes, 900), "lower": lower, "upper": upper, "message_ends": ends})
+		out.Violate("C05:"+sig, what, map[string]interface{}{"exec": ex, "cut": cut, "fault": faultNames[kind], "transport_resumes_after_fault": resumes, "write_side": []string{"healthy", "fails with io.ErrClosedPipe", "fails with a timeout", "healthy"}[writeBroken], "stream": st.Summary(), "bytes": core.Trunc(st.Bytes, 900), "lower": lower, "upper": upper, "message_ends": ends})
 		return false
 	}
 	j := 0
